@@ -18,21 +18,24 @@ ACTIONS = ["BorrowStart", "BorrowMark", "BorrowTake", "Send", "Respond", "LateSt
 WITNESSES = {
     "C12": ["Witness_CapacityRefusal", "Witness_PublishAfterShutdown", "Witness_ShutdownWithTrash",
             "Witness_RetireAfterShutdown", "Witness_FailedOldWhileCurrentHealthy", "Witness_InlineShutdown",
-            "Witness_QuiescentAllClosed", "Witness_ShutdownDuringUse", "Witness_MarkAfterReplacement"],
+            "Witness_QuiescentAllClosed", "Witness_ShutdownDuringUse", "Witness_MarkAfterReplacement",
+            "Witness_ShutdownTrashWithoutCurrent"],
     "C13": ["Witness_Trashed", "Witness_TrashClosedByRespond", "Witness_TrashClosedByTimeout", "Witness_Repick",
-            "Witness_RetireDuringLateResponse", "Witness_BorrowDuringLateResponse"],
+            "Witness_RetireDuringLateResponse", "Witness_BorrowDuringLateResponse", "Witness_TimeoutBelowThresholdAfterLatch"],
 }
 
 # constants: capacity MaxId, orphan threshold, requests, connections ever opened, failed opens, socket errors
-K_SMALL = {"MaxId": 2, "Threshold": 1, "Reqs": {1, 2}, "NConns": 2, "MaxFails": 0, "MaxConnFails": 1, "Ks": False}
-K_SMALL3 = {"MaxId": 2, "Threshold": 1, "Reqs": {1, 2}, "NConns": 3, "MaxFails": 1, "MaxConnFails": 1, "Ks": False}
-K_CAP = {"MaxId": 1, "Threshold": 1, "Reqs": {1, 2}, "NConns": 2, "MaxFails": 0, "MaxConnFails": 1, "Ks": False}
-K_MID = {"MaxId": 2, "Threshold": 1, "Reqs": {1, 2, 3}, "NConns": 2, "MaxFails": 0, "MaxConnFails": 1, "Ks": False}
-K_MID3 = {"MaxId": 2, "Threshold": 1, "Reqs": {1, 2, 3}, "NConns": 3, "MaxFails": 1, "MaxConnFails": 1, "Ks": False}
+K_SMALL = {"MaxId": 2, "Threshold": 1, "Reqs": {1, 2}, "NConns": 2, "MaxFails": 0, "MaxConnFails": 1, "Ks": False, "SubmitAtTimeout": False}
+K_SMALL3 = {"MaxId": 2, "Threshold": 1, "Reqs": {1, 2}, "NConns": 3, "MaxFails": 1, "MaxConnFails": 1, "Ks": False, "SubmitAtTimeout": False}
+K_CAP = {"MaxId": 1, "Threshold": 1, "Reqs": {1, 2}, "NConns": 2, "MaxFails": 0, "MaxConnFails": 1, "Ks": False, "SubmitAtTimeout": False}
+K_MID = {"MaxId": 2, "Threshold": 1, "Reqs": {1, 2, 3}, "NConns": 2, "MaxFails": 0, "MaxConnFails": 1, "Ks": False, "SubmitAtTimeout": False}
+K_MID3 = {"MaxId": 2, "Threshold": 1, "Reqs": {1, 2, 3}, "NConns": 3, "MaxFails": 1, "MaxConnFails": 1, "Ks": False, "SubmitAtTimeout": False}
 K_KS = dict(K_SMALL, Ks=True)          # with a session keyspace: the USE on the replacement connection is a step of its own
 K_KS3 = dict(K_SMALL3, Ks=True)
-K_RACE = {"MaxId": 2, "Threshold": 1, "Reqs": {1, 2, 3}, "NConns": 3, "MaxFails": 0, "MaxConnFails": 0, "Ks": False}   # two borrowers after the threshold
-K_BIG = {"MaxId": 3, "Threshold": 2, "Reqs": {1, 2, 3, 4}, "NConns": 3, "MaxFails": 1, "MaxConnFails": 1, "Ks": False}
+K_T2 = {"MaxId": 3, "Threshold": 2, "Reqs": {1, 2, 3}, "NConns": 2, "MaxFails": 0, "MaxConnFails": 0, "Ks": False,
+        "SubmitAtTimeout": False}      # threshold 2: late responses can bring the orphan count below it again
+K_RACE = {"MaxId": 2, "Threshold": 1, "Reqs": {1, 2, 3}, "NConns": 3, "MaxFails": 0, "MaxConnFails": 0, "Ks": False, "SubmitAtTimeout": False}   # two borrowers after the threshold
+K_BIG = {"MaxId": 3, "Threshold": 2, "Reqs": {1, 2, 3, 4}, "NConns": 3, "MaxFails": 1, "MaxConnFails": 1, "Ks": False, "SubmitAtTimeout": False}
 
 WHAT = {
     "HostConnection.borrow_connection:replace-submitted-for-a-connection-that-is-no-longer-current":
@@ -202,7 +205,8 @@ def witnesses(ctx, pid, consts, rep=None):
     """Every vacuity witness must be reachable; the behaviour TLC exhibits for it (a shortest path into the
     situation the witness names) is then replayed on the real objects as a directed case."""
     def one(w):
-        k = K_KS3 if w == "Witness_ShutdownDuringUse" else consts
+        k = {"Witness_ShutdownDuringUse": K_KS3, "Witness_TimeoutBelowThresholdAfterLatch": K_T2}.get(w, consts)
+        k = dict(k, SubmitAtTimeout=consts["SubmitAtTimeout"])
         cfg = tlc.write_cfg(os.path.join(ctx.scratch, w + ".cfg"), constants=k, invariants=[w], deadlock=False)
         return w, k, tlc.check_model("Pool", cfg, ctx.scratch, workers=3, timeout=1800, heap="1g")
     found = []
